@@ -1,6 +1,6 @@
 #!/bin/sh
 # usage: seed_iso.sh <name> <patch.diff> <property> [<property> ...]
-# Isolated evaluation of a seeded change for development: a copy of /verif's working tree and a scratch
+# Isolated evaluation of a seeded change for development: a copy of /verif's committed tree (HEAD) and a scratch
 # worktree of /repo HEAD with the patch applied; neither /repo nor /verif is touched. (The recorded
 # meta.json results come from tools/seed_keep.py, which applies the patch to /repo itself.)
 NAME=$1; PATCH=$2; shift; shift
@@ -11,7 +11,7 @@ git -C /repo worktree add -q --detach $REPO HEAD || exit 2
 cleanup() { git -C /repo worktree remove --force $REPO; rm -rf $SNAP; }
 trap cleanup EXIT
 ( cd $REPO && (git apply "$PATCH" 2>/dev/null || git apply --3way "$PATCH") ) || { echo "ISO: patch does not apply"; exit 2; }
-mkdir -p $SNAP && rsync -a --exclude .git --exclude .work --exclude .cache --exclude replays --exclude evidence --exclude seeded /verif/ $SNAP/
+mkdir -p $SNAP && git -C /verif archive HEAD | tar -x -C $SNAP   # committed state only: edits in progress cannot break a running batch
 sed -i "s|=> /repo|=> $REPO|" $SNAP/go.mod
 ( cd $SNAP && go build -o bin/vcheck ./cmd/vcheck ) || exit 2
 for P in "$@"; do
